@@ -20,8 +20,8 @@ PROPS = {
     'C01': dict(
         level='model_checking', design_ref='5/C01', oracle='C01',
         technique='explicit-state exploration of the real back-ends (BFS over events, DFS over guard valuations) + reference-model conformance',
-        quick=[S('flat'), S('hier2'), S('ortho'), S('hier3')],
-        thorough=[S('flat'), S('hier2'), S('ortho'), S('hier3'), S('entry'), S('histS')],
+        quick=[S('flat'), S('hier2'), S('ortho'), S('hier3'), S('wide', cfgs=['b', 'bc', 'b11', 'm', 'mc'])],
+        thorough=[S('flat'), S('hier2'), S('ortho'), S('hier3'), S('entry'), S('histS'), S('wide')],
         rule='every reachable active configuration x every event type x every valuation of the guards consulted; '
              'an execution is non-trivial when at least one guard or action ran',
     ),
@@ -29,15 +29,15 @@ PROPS = {
         level='model_checking', design_ref='5/C02', oracle='C02',
         technique='explicit-state exploration of the real back-ends + reference-model conformance on the exit/action/entry order',
         quick=[S('flat'), S('hier2'), S('hier3'), S('entry')],
-        thorough=[S('flat'), S('hier2'), S('hier3'), S('entry'), S('histN'), S('histA'), S('histS'), S('ortho')],
+        thorough=[S('flat'), S('hier2'), S('hier3'), S('entry'), S('histN'), S('histA'), S('histS'), S('ortho'), S('wide')],
         rule='every edge of the state graph from every reachable configuration under every guard valuation; '
              'non-trivial when an exit, action or entry ran',
     ),
     'C06': dict(
         level='model_checking', design_ref='5/C06', oracle='C06',
         technique='explicit-state exploration of the real back-ends + reference-model conformance on per-region order, result code and no_transition',
-        quick=[S('flat'), S('ortho'), S('hier2'), S('hier3')],
-        thorough=[S('flat'), S('ortho'), S('hier2'), S('hier3'), S('entry')],
+        quick=[S('flat'), S('ortho'), S('hier2'), S('hier3'), S('wide', cfgs=['b', 'bc', 'b11', 'm', 'mc'])],
+        thorough=[S('flat'), S('ortho'), S('hier2'), S('hier3'), S('entry'), S('wide')],
         rule='every reachable configuration x event x guard valuation, calls from quiescent non-blocked machines; '
              'non-trivial when a guard, action or no_transition ran',
     ),
@@ -45,7 +45,7 @@ PROPS = {
         level='model_checking', design_ref='5/C07', oracle='C07',
         technique='explicit-state exploration of the real back-ends + reference-model conformance on bubbling and cascades',
         quick=[S('hier2'), S('hier3'), S('entry')],
-        thorough=[S('hier2'), S('hier3'), S('entry'), S('histA')],
+        thorough=[S('hier2'), S('hier3'), S('entry'), S('histA'), S('wide')],
         rule='every reachable configuration of the nested machines x event x guard valuation; non-trivial when any callback ran',
     ),
     'C03': dict(
@@ -55,7 +55,7 @@ PROPS = {
               [S('orthoA', cfgs=['b', 'b11', 'm', 'mc'], introspect=True)],     # a root machine with a history policy: stop / start again
         thorough=[S(z, ops=pe_all(z) + ['eq:1', 'eq:2', 'xq', 'xs'], introspect=True) for z in ('ortho', 'hier2', 'hier3', 'entry', 'histN', 'histA', 'histS', 'flat')] +
                  [S('block', ops=pe_all('block') + ['eq:4', 'xq'], introspect=True), S('compl', ops=pe_all('compl') + ['eq:4', 'xq'], introspect=True),
-                  S('orthoA', introspect=True), S('orthoS', introspect=True)],
+                  S('orthoA', introspect=True), S('orthoS', introspect=True), S('wide', introspect=True)],
         rule='all histories over start/stop/process_event/enqueue_event/execute_queued_events to closure (pending queue <= 2); '
              'every distinct canonical state is a quiescent point checked against the ledger; non-trivial executions ran a callback',
     ),
@@ -181,7 +181,8 @@ PROPS = {
                   dict(zoo='hier2_c', cfgs=ALL, ops=['start', 'pe:1', 'pe:2', 'pe:3', 'eq:1', 'xq'], submits=1, guards=2, qbound=2),
                   dict(zoo='flat_c', cfgs=ALL, ops=['start', 'pe:1', 'pe:2', 'pe:4', 'eq:3', 'xq', 'xs'], submits=2, guards=1, qbound=2)] +
                  [dict(zoo='sw_' + p, cfgs=ALL, ops=pe_all('sw_' + p) + ['eq:1', 'xq'], act_in_trace=True) for p in ('after_exit', 'before', 'after_action', 'after_entry')] +
-                 [dict(zoo=z, cfgs=['b', 'bc', 'bq', 'm', 'mf', 'mc'], ops=pe_all(z) + ['eq:1', 'xq'], act_in_trace=True) for z in ('flat', 'ortho', 'hier2', 'entry')],
+                 [dict(zoo=z, cfgs=['b', 'bc', 'bq', 'm', 'mf', 'mc'], ops=pe_all(z) + ['eq:1', 'xq'], act_in_trace=True) for z in ('flat', 'ortho', 'hier2', 'entry')] +
+                 [dict(zoo='wide', cfgs=ALL, ops=pe_all('wide'), act_in_trace=True, compare_ids=True)],
         rule='product exploration of b, bc, bq, b11, m, mf, mc on machines of the common feature subset: every reachable product state x event x '
              'guard valuation (x one nested submission); an execution is non-trivial when a callback ran',
     ),
